@@ -69,7 +69,9 @@ TracePrepare ==
 TraceProcess ==
   /\ IsEvent("process")
   /\ LET p == PFrom(Ev.p, Ev.h, Ev.proposer) IN
-     Chk(B("process") => (Ev.accept = ProcessAccepts(C, p)), "PROCESS-VERDICT", << ProcessAccepts(C, p), DueList(C), p >>)
+     \* (a proposal whose block transaction carries a low gas limit is admissible or not depending on what admission itself
+     \* consumes - no gas model here: its verdict is not demanded, its finalisation is what is looked at)
+     Chk((B("process") /\ Ev.mut # "lowGas") => (Ev.accept = ProcessAccepts(C, p)), "PROCESS-VERDICT", << ProcessAccepts(C, p), DueList(C), p >>)
   /\ UNCHANGED << C, pending, handed, seen >>
 
 EngineLogOk(e, head) ==
@@ -91,7 +93,11 @@ TraceFinalize ==
          engOk == EndEngineOk(Ev.endNp, Ev.endFcu)
      IN
      /\ Chk((B("finalize") /\ ~Ev.err) => (Ev.msgOk => checks), "BLOCKMSG-ACCEPTED-BAD-PROPOSAL", p)
-     /\ Chk((B("finalize") /\ ~Ev.err) => ((checks /\ Ev.modulesOk) => Ev.msgOk), "BLOCKMSG-FAILED", << DueList(C), p >>)
+     \* `oog`: the execution-block transaction ran out of the gas limit its author gave it (reported by the implementation; the
+     \* specification has no gas model). Then the message did NOT succeed, and - like after any failed block message - the head,
+     \* the queues and what the engine is told are those of the state before (`after = C` below)
+     /\ Chk((B("finalize") /\ ~Ev.err) => ((checks /\ Ev.modulesOk /\ ~Ev.oog) => Ev.msgOk), "BLOCKMSG-FAILED", << DueList(C), p >>)
+     /\ Chk((B("finalize") /\ ~Ev.err) => (Ev.oog => ~Ev.msgOk), "OUT-OF-GAS-BUT-APPLIED", p)
      /\ Chk(B("faults") => (Ev.err = ~engOk), "FINALIZE-ERROR", << Ev.endNp, Ev.endFcu >>)
      /\ Chk((B("faults") /\ ~Ev.err /\ Ev.byz = "") => EngineLogOk(Ev, after.head), "ENGINE-LOG", after.head)
      \* a mutated proposal that others decided (its engine log may hold late requests of refused ProcessProposal calls, so it is
